@@ -49,7 +49,10 @@ static std::string as_cif_value(const sajson::value& val) {
       for (size_t i = 0; i < val.get_length(); ++i) {
         if (i != 0)
           s += ' ';
-        s += val.get_array_element(i).as_string();
+        const sajson::value el = val.get_array_element(i);
+        if (el.get_type() != sajson::TYPE_STRING && el.get_type() != sajson::TYPE_DOUBLE)
+          fail("Unexpected ", json_type_as_string(el.get_type()), " in an array value in JSON.");
+        s += el.as_string();
       }
       return quote(s);
     }
